@@ -436,7 +436,7 @@ def run(rep, tier_, rng):
         fn = fn_of(spec, method); regime = regime_of(spec, method)
         cid = "s%04d" % n
         call = {"fn": fn, "method": method, "regime": regime, "kclass": kclass_of(spec, method), "conv": conv_of(spec),
-                "pband": pband(prec), "prec": prec, "spec": spec}
+                "pband": pband(prec), "mclass": "r" if method in ("default", "richardson") else "other", "prec": prec, "spec": spec}
         if spec["kind"].startswith("finite_sum"):
             S, A = finite_exact(spec)
             if S == 0 or A > 8 * abs(S):
@@ -483,7 +483,7 @@ def replay(rep, path):
         spec = r["spec"]
         y, S, A = do_call(mp, spec, r["method"], r["prec"], 600)
         cid = "replay"
-        call = {k: r[k] for k in ("fn", "method", "regime", "kclass", "conv", "pband", "prec", "spec") if k in r}
+        call = {k: r[k] for k in ("fn", "method", "regime", "kclass", "conv", "pband", "mclass", "prec", "spec") if k in r}
         yq = calcb.frac_of(y)
         if yq is None:
             rep.violation("C27 %s returned %r" % (r["fn"], y), dict(call, clause="nonfinite"))
